@@ -245,7 +245,7 @@ typedef struct sb_trajectory_stats_s {
     uint32_t duration_msec;
 
     /** Total duration, in seconds */
-    uint32_t duration_sec;
+    float duration_sec;
 
     /** Earliest time above the takeoff altitude, in seconds */
     float earliest_above_sec;
